@@ -293,6 +293,14 @@ theorem loops_never_out_of_fuel {α β : Type} (primary : D β) (block : D α) (
     (run (bundleBlocks primary block) bs).1 ≠ .error fuelErr ∧ (run (repeatN elem esz n) bs).1 ≠ .error fuelErr :=
   ⟨(sound_bundleBlocks hp hb ha).nofuel _, (sound_repeatN elem esz n he hae hk).nofuel _⟩
 
+open Dtn7.Decoders.Lemmas in
+/-- **Every element consumes input**: a successfully decoded status item, announcement or map entry takes
+at least one byte (in fact at least two) from the input — the reason why the `loop` rows of the allocation
+table (`reads = true`: read first, append afterwards) cannot allocate or iterate beyond what has arrived. -/
+theorem elements_consume_input :
+    Adv statusItem ∧ Adv announcement ∧ Adv dtlsrEntry ∧ Adv prophetEntry ∧ Adv eid :=
+  ⟨adv_statusItem, adv_announcement, adv_dtlsrEntry, adv_prophetEntry, adv_eid⟩
+
 /-- The model's CBOR head reader is the shared model of `cboring.ReadMajors`. -/
 theorem head_is_decHead (s : St) :
     (head s).1 = (Cbor.decHead s.rest).map (fun r => (r.1, r.2.1)) ∧
